@@ -49,22 +49,87 @@ class C01(Property):
         for i in range(nrand // 5):
             ops = G.mutate_unbalanced(rng, G.rand_tree_events(rng, rng.choice([4, 10, 30])))
             res.append(("malformed", "H %s %s %s" % (BACKENDS[i % 2], rng.choice(["f", "0"]), " ".join(ops))))
+        res += self.example_cases(tier, Rng(seed + 101))
         return res
+
+    # ---- the repository's own example parsers: their output must reproduce the input ----
+    @staticmethod
+    def cps(s):
+        return ".".join(str(ord(c)) for c in s)
+
+    def example_cases(self, tier, rng):
+        res = []
+        n = 150 if tier == "quick" else 3000
+        # math: arbitrary token sequences (the parser wraps what it does not expect into Error nodes)
+        math_toks = [("n", "1"), ("n", "42"), ("w", " "), ("w", "  "), ("a", "+"), ("s", "-"), ("m", "*"), ("d", "/"), ("n", "7")]
+        res.append(("corpus", "E math n:49 w:32 a:43 w:32 n:50 w:32 m:42 w:32 n:51 w:32 a:43 w:32 n:52"))      # the example's own input
+        for k in range(1, 4):
+            import itertools
+            for combo in itertools.product([("n", "1"), ("w", " "), ("a", "+"), ("m", "*")], repeat=k):
+                res.append(("exhaustive", "E math " + " ".join("%s:%s" % (a, self.cps(b)) for a, b in combo)))
+        for _ in range(n):
+            toks = [rng.choice(math_toks) for _ in range(1 + rng.below(9))]
+            res.append(("random", "E math " + " ".join("%s:%s" % (a, self.cps(b)) for a, b in toks)))
+
+        # readme: well-formed expressions of its grammar (anything else is rejected by its lexer / parser), with and without blanks
+        def expr(depth):
+            r = rng.below(10)
+            if depth <= 0 or r < 4:
+                return str(rng.below(1000))
+            if r < 8:
+                return expr(depth - 1) + rng.choice(["", " ", "  "]) + rng.choice("+-") + rng.choice(["", " "]) + expr(depth - 1)
+            return "(" + rng.choice(["", " "]) + expr(depth - 1) + rng.choice(["", " "]) + ")"
+        for s in ["1+2", "(1+2)-3", "1 + 2", "12", " 1"]:
+            res.append(("corpus", "E readme " + self.cps(s)))
+        for _ in range(n):
+            res.append(("random", "E readme " + self.cps(expr(3))))
+        # s_expressions: any text over its alphabet, balanced or not
+        alphabet = "()+-*/ 0123456789ab\n\t"
+        for s in ["(+ (* 15 2) 62)", "", "(", ")", ")(", "(+ 1", "  x  "]:
+            res.append(("corpus", "E sexp " + self.cps(s)))
+        for _ in range(n):
+            res.append(("random", "E sexp " + self.cps("".join(rng.choice(alphabet) for _ in range(rng.below(25))))))
+        return res
+
+    def known_class(self, case, impl, why):
+        if case.startswith("E readme ") and impl.startswith("text="):
+            inp = [int(x) for x in case.split(" ")[2].split(".") if x]
+            out = [int(x) for x in impl[5:].split(".") if x]
+            blanks = {32, 9, 10, 13}
+            if any(c in blanks for c in inp) and out == [c for c in inp if c not in blanks]:
+                return "example-readme-drops-whitespace"
+        return None
 
     def project(self, line):
         # C01 is about structure and text; which allocations are shared is C04's business
         return line.rsplit(" || share ", 1)[0] + " || share -" if " || share " in line else line
 
     def spec(self, case, impl):
+        if case.startswith("E "):
+            parts = case.split(" ")
+            if parts[1] == "math":
+                want = ".".join(p.split(":", 1)[1] for p in parts[2:] if ":" in p and p.split(":", 1)[1])
+            else:
+                want = parts[2] if len(parts) > 2 else ""
+            if impl == "REJECT" and parts[1] == "readme":
+                return None            # the tutorial calculator may refuse input; it must not lose any
+            if impl != "text=" + want:
+                return "example parser `%s` does not reproduce its input: got %s" % (parts[1], impl[:200])
+            return None
         return check_history_line(case, impl)
 
     def nontrivial(self, case, impl):
+        if case.startswith("E "):
+            return len(case) > 12
         toks = case.split(" ")[3:]
         return sum(1 for t in toks if t[0] == "S") >= 2 and any(t[0] in "TX" for t in toks)
 
     def distribution(self, cases, impl_lines):
         sizes, backends, masks, panics = {}, {}, {}, 0
         for c, l in zip(cases, impl_lines):
+            if c.startswith("E "):
+                backends["example:" + c.split(" ")[1]] = backends.get("example:" + c.split(" ")[1], 0) + 1
+                continue
             t = c.split(" ")
             n = len(t) - 3
             b = 1
@@ -80,6 +145,10 @@ class C01(Property):
 
     def shrink_tokens(self, case):
         toks = case.split(" ")
+        if case.startswith("E math"):
+            return toks[:2], toks[2:]
+        if case.startswith("E "):
+            return None
         return toks[:3], toks[3:]
 
 
